@@ -41,6 +41,11 @@ CHECKS = {
    "Generated-input search: typed expressions (all operators, IN, CASE, casts, EXTRACT, subscripts, README functions; ~4% ill-typed nodes) are evaluated by the real FileExecutor (JSON output) and by a reference evaluator written from the property statement and README on the rows the real extract produced; records, their order, column names and the error/no-error outcome per row are compared. Sub-cases the documents do not fix are counted as unspecified and not judged. Exploration, not proof.",
    "Trusted base of the model: Rust std float parsing and case mapping, the regex crate, chrono calendar arithmetic; TZ=UTC; expressions rendered fully parenthesised.",
    "DESIGN.md §3 C03, Appendix A"),
+ "C04": (True,
+   "property-based testing: differential against a naive group-then-fold reference executor over generated aggregate statements and data",
+   "Generated-input search: aggregate statements (every aggregate, wrappers, 0-2 GROUP BY elements, WHERE, HAVING incl. hidden aggregates) over small-domain data with NULL-heavy columns run through the real FileExecutor; the printed table is compared row by row and cell by cell with a filter / bucket / order / fold reference computed from the rows the real extract produced. Exploration, not proof. One recorded known finding (F09b) is excluded by construction and replayed as a witness.",
+   "PERCENTILE judged by a validity predicate, AVG(INT) truncated-or-real, STDDEV/VARIANCE population form with tolerance; documents-unspecified sub-cases counted and not judged.",
+   "DESIGN.md §3 C04, Appendix A"),
 }
 
 NOT_YET = {
